@@ -200,11 +200,6 @@ func run(c *core.Ctx) error {
 	c.Cov("rule", "static: every declared non-abstract method is resolved by the runtime with the declared parameter / optional-parameter counts (StdConformance.tla over facts of the live environments); dynamic: every result is InstanceOf the call's static (instantiated declared) return type and every thrown value is InstanceOf the declared throw type or a Std::Error (TypesTrace.tla)")
 	c.Assume("IO / file system / process / sleep / concurrency namespaces and the Std::Elk AST object model are excluded from the dynamic sweep (static relation still checked)")
 	c.Assume("arguments come from a fixed pool; a call is in the domain only if the real checker accepts it")
-	keys := make([]string, 0, len(sw.Skipped))
-	for k := range sw.Skipped {
-		keys = append(keys, k)
-	}
-	sort.Strings(keys)
 	if len(dyns) < 300 || len(methods) < 100 {
 		return core.Inconclusivef("sweep too small: %d observed calls of %d methods", len(dyns), len(methods))
 	}
